@@ -179,12 +179,14 @@ def expected_output(view, fc, force=None):
     return out
 
 
-def expected_candidates(view, fc):
-    """the expected object; when the two regrets are within rounding of each other either choice is accepted"""
+def expected_candidates(view, fc, exact=False):
+    """the expected object; when the two regrets are within rounding of each other either choice is accepted -
+    unless `exact`: the view comes from the very code the binary runs (library, one thread), so even an exact
+    tie is decided: the pruned profile is printed only when its regret is *strictly* lower"""
     want = expected_output(view, fc)
     if want is None:
         return None
-    if want["margin"] < 1e-9 * max(1.0, abs(want["regret"])):
+    if not exact and want["margin"] < 1e-9 * max(1.0, abs(want["regret"])):
         return [want, expected_output(view, fc, force=not want["pruned"])]
     return [want]
 
